@@ -185,7 +185,10 @@ fn expected_bounds(case: &MatchCase, name: &str) -> Option<Vec<Vec<f64>>> {
 pub fn case_match(bytes: &[u8], _s: &[u8], ctx: &mut Ctx) -> Result<(), Fail> {
     let mut src = Source::new(bytes);
     let case = dec_match(&mut src);
-    ctx.case(&case);
+    // 0: no unit suffixes; 1: suffixes on, every histogram described in seconds (family = name_seconds); 2: suffixes on,
+    // described as a plain count (no suffix)
+    let unit_mode = src.below(3);
+    ctx.case(&(&case, unit_mode));
     let mk_matcher = |k: u8, p: &str| match k {
         0 => Matcher::Full(p.to_string()),
         1 => Matcher::Prefix(p.to_string()),
@@ -201,6 +204,10 @@ pub fn case_match(bytes: &[u8], _s: &[u8], ctx: &mut Ctx) -> Result<(), Fail> {
     }
     for (i, (k, p)) in case.overrides.iter().enumerate() {
         pb = pb.set_buckets_for_metric(mk_matcher(*k, &raw(p)), &bounds_of(i)).unwrap();
+    }
+    if unit_mode >= 1 {
+        pb = pb.set_enable_unit_suffix(true);
+        ctx.class("unit-suffix-enabled");
     }
     let rec = pb.build_recorder();
     let mut names = case.names.clone();
@@ -225,13 +232,19 @@ pub fn case_match(bytes: &[u8], _s: &[u8], ctx: &mut Ctx) -> Result<(), Fail> {
             (Some(ok), Distribution::Summary(..)) => return Err(Fail::new("summary-despite-buckets", format!("{:?}: buckets {:?} apply but a summary was built", name, ok))),
         }
         rec.register_histogram(&Key::from_name(raw(name)), &META).record(0.5);
+        if unit_mode >= 1 {
+            rec.describe_histogram(raw(name).into(), Some(if unit_mode == 1 { metrics::Unit::Seconds } else { metrics::Unit::Count }), "d".into());
+        }
     }
     let text = rec.handle().render();
     let lines = parse_prometheus(&text).map_err(|e| Fail::new("exposition-not-well-formed", e))?;
     let fams = prom_families(&lines).map_err(|e| Fail::new("family-structure-violated", e))?;
     for name in &names {
         // after sanitisation '.' became '_', so the rendered family is the plain name
-        let Some(f) = fams.iter().find(|f| &f.name == name) else { return Err(Fail::new("series-missing", format!("{:?} not rendered: {:?}", name, text))) };
+        // (with unit suffixes on and the histogram described in seconds the family carries the suffix, once)
+        let with_suffix = if name.ends_with("_seconds") { name.clone() } else { format!("{}_seconds", name) };
+        let wanted: &str = if unit_mode == 1 { &with_suffix } else { name };
+        let Some(f) = fams.iter().find(|f| f.name == wanted) else { return Err(Fail::new("series-missing", format!("{:?} (family {:?}) not rendered: {:?}", name, wanted, text))) };
         match expected_bounds(&case, name) {
             None => ensure!(f.mtype == "summary", "exposed-type-wrong", "{:?} exposed as {} although no buckets apply", name, f.mtype),
             Some(ok) => {
